@@ -35,12 +35,21 @@ View == [slots |-> slots, mask |-> mask, ins |-> ins, len |-> len, epT |-> epT,
 None == [kind |-> "none", ep |-> 0, t |-> 0, term |-> FALSE, trunc |-> FALSE]
 Min(a, b) == IF a < b THEN a ELSE b
 Max(a, b) == IF a < b THEN b ELSE a
+
+(* PRIO only: the model value of the initial tracked maximum (max_priority = 1.0 in the code); a model priority p  *)
+(* stands for the real priority p / PrioDefault.  A definition (not a CONSTANT: configurations that do not mention *)
+(* it - all of C04's - keep PrioDefault = 1); C08 selects a lattice with priorities BELOW and above the initial     *)
+(* maximum by the definition override  CONSTANT PrioDefault <- PrioDefault2  (PrioVals {1,3} are then 0.5 and 1.5). *)
+PrioDefault == 1
+PrioDefault2 == 2
+PrioDefault4 == 4
+
 Emit(op, args, exp) ==
   EMIT => PrintT(<<"EMIT", ToJson([pre |-> View, op |-> op, args |-> args, exp |-> exp, post |-> View'])>>)
 
 Init == /\ slots = [i \in 1..N |-> None] /\ mask = [i \in 1..N |-> 0]
         /\ ins = 0 /\ len = 0 /\ epT = 0 /\ envTerm = FALSE /\ ep = 0 /\ adds = 0
-        /\ prio = [i \in 1..N |-> 0] /\ maxPrio = 1 /\ sampled = <<>>
+        /\ prio = [i \in 1..N |-> 0] /\ maxPrio = PrioDefault /\ sampled = <<>>
 
 ----------------------------------------------------------------------------
 (* add_sample(end): end = "cont" | "term" | "trunc"                           *)
@@ -140,10 +149,12 @@ UpdatePriority(vals) ==
   /\ UNCHANGED <<slots, mask, ins, len, epT, envTerm, ep, adds, sampled>>
   /\ Emit("UpdatePriority", <<vals>>, <<>>)
 
-(* reset_max_priority: the true maximum over the filled region *)
+(* reset_max_priority: the true maximum over the filled region (masked slots included), whether it lies above, *)
+(* at or below the initial value PrioDefault; an empty buffer keeps its tracked maximum                         *)
+TrueMax == SeqMax([i \in 1..len |-> prio[i]], len)
 ResetMax ==
   /\ PRIO
-  /\ maxPrio' = IF len > 0 THEN SeqMax([i \in 1..len |-> prio[i]], len) ELSE maxPrio
+  /\ maxPrio' = IF len > 0 THEN TrueMax ELSE maxPrio
   /\ UNCHANGED <<slots, mask, ins, len, epT, envTerm, ep, adds, prio, sampled>>
   /\ Emit("ResetMax", <<>>, <<>>)
 
@@ -185,6 +196,12 @@ NewGetMax == PRIO => \A i \in 1..len : prio[i] >= 1
 Proportional == (PRIO /\ len > 0) =>
   \A i \in 0..(len - 1) : Cardinality({k \in 1..Total : Select(k) = i}) = prio[i + 1] * mask[i + 1]
 NeverMasked == (PRIO /\ len > 0) => \A k \in 1..Total : mask[Select(k) + 1] = 1 /\ Select(k) < len
+(* a step that lowers the tracked maximum is a reset and leaves exactly the true maximum *)
+ResetExact == [][(PRIO /\ maxPrio' < maxPrio) => (len > 0 /\ UNCHANGED <<prio, len>> /\ maxPrio' = TrueMax)]_vars
+(* reachability target (C08 requires TLC to REFUTE it in the lattice it uses): a state where a reset has to go  *)
+(* below the initial maximum - every sampleable priority was updated to a value below PrioDefault and the rest   *)
+(* overwritten by additions that received such a maximum                                                         *)
+NeverAllBelow == ~(PRIO /\ len > 0 /\ maxPrio < PrioDefault /\ \A i \in 1..len : prio[i] < PrioDefault)
 
 ----------------------------------------------------------------------------
 (* Deviation canaries *)
